@@ -179,7 +179,8 @@ Lemma legal_pos_inv p : legal_pos p = true ->
   forallb (fun s => negb (type_of (piece_at p s) =? PAWN) || negb ((rank_of s =? 0) || (rank_of s =? 7))) squares64 = true /\
   rights_ok p = true /\ ep_ok p = true.
 Proof.
-  unfold legal_pos, valid_codes. rewrite !andb_true_iff, !Nat.eqb_eq, !N.ltb_lt, negb_true_iff. tauto.
+  unfold legal_pos, valid_codes. rewrite !andb_true_iff, !Nat.eqb_eq, !N.ltb_lt, negb_true_iff.
+  intros (((((((((H1 & H2) & H3) & H4) & H5) & H6) & H7) & H8) & H9) & H10). repeat split; assumption.
 Qed.
 
 (* what the generator proofs need of a position *)
@@ -211,8 +212,8 @@ Proof. intros H s. pose proof (wf_codes p H s) as Hc. cbn in Hc. lia. Qed.
 Lemma piece_split pc : In pc valid_codes -> pc <> 0 ->
   pc = mk_piece (colour_of pc) (type_of pc) /\ colour_of pc < 2 /\ 1 <= type_of pc <= 6.
 Proof.
-  intros H Hz. cbn in H. decompose [or] H; subst pc; try congruence; try (exfalso; assumption);
-    vm_compute; repeat split; congruence.
+  intros H Hz. unfold valid_codes in H. cbn [In] in H.
+  repeat (destruct H as [<-|H]; [try congruence; vm_compute; repeat split; congruence|]). destruct H.
 Qed.
 
 Lemma mk_piece_colour c t : t < 8 -> colour_of (mk_piece c t) = c.
@@ -258,15 +259,15 @@ Proof. unfold free_or_enemy, enemy. destruct (at_ b t =? 0); reflexivity. Qed.
 
 (** ** table lookups *)
 Lemma gab_knight s occ : s < 64 -> get_attacks_bb KNIGHT s occ = Some (bb_of (knight_targets s)).
-Proof. intros H. unfold get_attacks_bb. cbn. now apply knight_attacks_exact. Qed.
+Proof. intros H. unfold get_attacks_bb, KNIGHT, KING, BISHOP, ROOK, QUEEN. cbn [N.eqb Pos.eqb]. now apply knight_attacks_exact. Qed.
 Lemma gab_king s occ : s < 64 -> get_attacks_bb KING s occ = Some (bb_of (king_targets s)).
-Proof. intros H. unfold get_attacks_bb. cbn. now apply king_attacks_exact. Qed.
+Proof. intros H. unfold get_attacks_bb, KNIGHT, KING, BISHOP, ROOK, QUEEN. cbn [N.eqb Pos.eqb]. now apply king_attacks_exact. Qed.
 Lemma gab_bishop s occ : s < 64 -> get_attacks_bb BISHOP s occ = Some (slide bishop_dirs s occ).
-Proof. intros H. unfold get_attacks_bb. cbn. now apply bishop_attacks_exact. Qed.
+Proof. intros H. unfold get_attacks_bb, KNIGHT, KING, BISHOP, ROOK, QUEEN. cbn [N.eqb Pos.eqb]. now apply bishop_attacks_exact. Qed.
 Lemma gab_rook s occ : s < 64 -> get_attacks_bb ROOK s occ = Some (slide rook_dirs s occ).
-Proof. intros H. unfold get_attacks_bb. cbn. now apply rook_attacks_exact. Qed.
+Proof. intros H. unfold get_attacks_bb, KNIGHT, KING, BISHOP, ROOK, QUEEN. cbn [N.eqb Pos.eqb]. now apply rook_attacks_exact. Qed.
 Lemma gab_queen s occ : s < 64 -> get_attacks_bb QUEEN s occ = Some (slide (bishop_dirs ++ rook_dirs) s occ).
-Proof. intros H. unfold get_attacks_bb. cbn. now apply queen_attacks_exact. Qed.
+Proof. intros H. unfold get_attacks_bb, KNIGHT, KING, BISHOP, ROOK, QUEEN. cbn [N.eqb Pos.eqb]. now apply queen_attacks_exact. Qed.
 
 Lemma sq_to_o_some s d : s < 64 -> sq_to_o s (Some d) = Some (opt64 (step d s)).
 Proof. intros H. cbn [sq_to_o]. now apply sq_to_exact. Qed.
@@ -325,7 +326,7 @@ Lemma code_inj m m' : valid_mv m -> valid_mv m' -> code m = code m' -> m = m'.
 Proof.
   intros H H' E. destruct (code_fields m H) as (A1 & A2 & A3 & A4).
   destruct (code_fields m' H') as (B1 & B2 & B3 & B4). rewrite E in *.
-  destruct m, m'. cbn [mfrom mto mtype mprom] in *. congruence.
+  destruct m as [f t ty pr], m' as [f' t' ty' pr']. cbn [mfrom mto mtype mprom] in *. congruence.
 Qed.
 
 (** ** steps (finite facts) *)
